@@ -12,7 +12,7 @@ Trace == ndJsonDeserialize(IOEnv.TRACE_FILE)
 
 VARIABLE l
 
-Loc(s) == IF s \in ParkedPcs \cup {"w.blocked", "m.wait"} THEN "parked" ELSE s
+Loc(s) == IF s \in ParkedPcs THEN "parked" ELSE s
 
 Post(e) ==
     /\ \A q \in Procs : q \in DOMAIN e.pcs => Loc(pc'[q]) = e.pcs[q]
